@@ -129,6 +129,18 @@ func toMapData(data any) map[string]any {
 	return make(map[string]any)
 }
 
+// mergeFrontMatter returns a new map holding data overlaid with frontMatter.
+func mergeFrontMatter(data, frontMatter map[string]any) map[string]any {
+	out := make(map[string]any, len(data)+len(frontMatter))
+	for k, v := range data {
+		out[k] = v
+	}
+	for k, v := range frontMatter {
+		out[k] = v
+	}
+	return out
+}
+
 // Render processes a full-page template file and writes the output to w.
 // Front-matter data in the template is authoritative and overrides passed data.
 // Render is safe to call concurrently from multiple goroutines.
@@ -138,11 +150,9 @@ func (v *Vue) Render(w io.Writer, filename string, data any) error {
 		return err
 	}
 
-	// Merge front-matter data into the provided data (front-matter is authoritative)
-	dataMap := toMapData(data)
-	for k, v := range frontMatter {
-		dataMap[k] = v
-	}
+	// Merge front-matter data over a copy of the provided data (front-matter is
+	// authoritative); the caller's map is never written to.
+	dataMap := mergeFrontMatter(toMapData(data), frontMatter)
 
 	// Create context for v-once attribute tracking
 	vueCtx := NewVueContext(filename, &VueContextOptions{
@@ -233,11 +243,9 @@ func (v *Vue) RenderFragment(w io.Writer, filename string, data any) error {
 		return err
 	}
 
-	// Merge front-matter data into the provided data (front-matter is authoritative)
-	dataMap := toMapData(data)
-	for k, v := range frontMatter {
-		dataMap[k] = v
-	}
+	// Merge front-matter data over a copy of the provided data (front-matter is
+	// authoritative); the caller's map is never written to.
+	dataMap := mergeFrontMatter(toMapData(data), frontMatter)
 
 	// Create context for v-once attribute tracking
 	vueCtx := NewVueContext(filename, &VueContextOptions{
